@@ -1,4 +1,5 @@
 import RxModel.Driver.Proto
+import RxModel.Conc.StatusLts
 import RxModel.Conv.Convert
 /-
   Runner of suite `convert` (C14): same lines as harness/src/suites/convert_suite.rs.
@@ -66,6 +67,23 @@ def runConvertCase (id : String) (field : String → List SExp) (events : List (
   | "collectfuture" => goConv id (CFW.step m) showFOut {} 0 events
   | "stream" => goConv id (StrW.step m) showSOut {} 0 events
   | "status" => goConv id StatW.step showStOut {} 0 events
+  | "statusrace" =>
+    -- `wait_for_end` racing with the producer's terminal, the producer running
+    -- exactly between the waiter's flag check and its waker registration
+    -- (RxModel/Conc/StatusLts.lean; theorems in Props/C14T.lean)
+    let res : Option (Option Bool × Bool) :=
+      match m with
+      | .code =>
+        (Conc.dexec Conc.Status.sem (Conc.mkState [Conc.Status.producer, Conc.Status.waiterAsWritten])
+          Conc.Status.d0 [1, 0, 0, 0, 1]).map fun x => (x.2.res, x.2.woken)
+      | .fixed =>
+        (Conc.dexec Conc.Status.sem (Conc.mkState [Conc.Status.producer, Conc.Status.waiterFixed])
+          Conc.Status.d0 [0, 0, 0, 1, 1]).map fun x => (x.2.res, x.2.woken)
+    let line := match res with
+      | some (some true, _) => "wait=returned"
+      | some (_, true) => "wait=returned"
+      | _ => "wait=HANG"
+    (List.range events.length).map fun k => s!"{id}.{k} {line}"
   | k => [s!"{id}.0 UNKNOWN-KIND {k}"]
 
 end Rx.Driver.Conv
